@@ -194,8 +194,10 @@ class DeepTagsStream(base.EndToEndStream):
 
     def classify(self, case, failure):
         k = G.shape_of(failure)
-        if k == "c07-header-beyond-window" and case.get("no_replace"):
-            # --no-replace never leaves a header where an old one stood: the new header goes on top, inside the window
+        if k == "c07-header-beyond-window":
+            # not that finding: the file starts with no first-line declarations, the request is small, and the deep line is either
+            # no comment of the file's style (annotate cannot take it for a header and replace it where it stands) or the run was
+            # made with --no-replace (the new header always goes on top, inside the window)
             return None
         return k
 
